@@ -158,6 +158,9 @@ class Run:
         Results are consumed in enumeration order, whatever order the workers finish in.  VERIF_SEED
         rotates the order in which cases are handed out (never which cases)."""
         cases = list(cases)
+        if getattr(self, "only", None) is not None and family not in self.only:
+            self.caps.append(f"family {family} skipped (--only)")
+            return []
         n = len(cases)
         fam = self.families.setdefault(family, {"cases": 0, "evals": 0, "nontrivial": 0, "violations": 0})
         if n == 0:
@@ -235,6 +238,8 @@ class Run:
             kf = match_known(known, vs[0])
             (listed if kf else unlisted).append((key, vs, kf))
         vacuity = [o for o in require_outcomes if self.outcomes.get(o, 0) == 0 and self.stats.get(o, 0) == 0]
+        if getattr(self, "only", None) is not None:
+            vacuity = []  # a run restricted to some families cannot be judged for vacuity
         status = 0
         lines = []
         replay_dir = OUT / "replays" / self.prop
